@@ -251,7 +251,7 @@ func ReadByte(data []byte, pos int) (byte, int, bool) {
 
 // ReadBytes read []byte from pos with sized size
 func ReadBytes(data []byte, pos int, size int) ([]byte, int, bool) {
-	if pos+size-1 >= len(data) {
+	if size < 0 || pos < 0 || pos > len(data) || size > len(data)-pos {
 		return nil, 0, false
 	}
 	return data[pos : pos+size], pos + size, true
@@ -260,7 +260,7 @@ func ReadBytes(data []byte, pos int, size int) ([]byte, int, bool) {
 // ReadBytesCopy returns a copy of the bytes in the packet.
 // Useful to remember contents of ephemeral packets.
 func ReadBytesCopy(data []byte, pos int, size int) ([]byte, int, bool) {
-	if pos+size-1 >= len(data) {
+	if size < 0 || pos < 0 || pos > len(data) || size > len(data)-pos {
 		return nil, 0, false
 	}
 	result := make([]byte, size)
@@ -270,6 +270,9 @@ func ReadBytesCopy(data []byte, pos int, size int) ([]byte, int, bool) {
 
 // ReadNullString read Null terminated string from []byte, return string,pos,if end.
 func ReadNullString(data []byte, pos int) (string, int, bool) {
+	if pos < 0 || pos > len(data) {
+		return "", 0, false
+	}
 	end := bytes.IndexByte(data[pos:], 0)
 	if end == -1 {
 		return "", 0, false
@@ -279,6 +282,9 @@ func ReadNullString(data []byte, pos int) (string, int, bool) {
 
 // ReadNullString read Null terminated string from []byte, return byet,pos,if end.
 func ReadNullByte(data []byte, pos int) ([]byte, int, bool) {
+	if pos < 0 || pos > len(data) {
+		return []byte{}, 0, false
+	}
 	end := bytes.IndexByte(data[pos:], 0)
 	if end == -1 {
 		return []byte{}, 0, false
@@ -360,10 +366,11 @@ func readLenEncString(data []byte, pos int) (string, int, bool) {
 	if !ok {
 		return "", 0, false
 	}
-	s := int(size)
-	if pos+s-1 >= len(data) {
+	// size comes from the wire: it may not fit in an int or may overflow pos+s
+	if size > uint64(len(data)-pos) {
 		return "", 0, false
 	}
+	s := int(size)
 	return string(data[pos : pos+s]), pos + s, true
 }
 
@@ -373,10 +380,11 @@ func skipLenEncString(data []byte, pos int) (int, bool) {
 	if !ok {
 		return 0, false
 	}
-	s := int(size)
-	if pos+s-1 >= len(data) {
+	// size comes from the wire: it may not fit in an int or may overflow pos+s
+	if size > uint64(len(data)-pos) {
 		return 0, false
 	}
+	s := int(size)
 	return pos + s, true
 }
 
@@ -386,10 +394,11 @@ func ReadLenEncStringAsBytes(data []byte, pos int) ([]byte, int, bool, bool) {
 	if !ok {
 		return nil, 0, isNull, false
 	}
-	s := int(size)
-	if pos+s-1 >= len(data) {
+	// size comes from the wire: it may not fit in an int or may overflow pos+s
+	if size > uint64(len(data)-pos) {
 		return nil, 0, isNull, false
 	}
+	s := int(size)
 	return data[pos : pos+s], pos + s, isNull, true
 }
 
